@@ -302,8 +302,8 @@ def embed [Mul α] [Zero α] [One α] (pre post : Nat) (m : Mat α) : Mat α :=
 def prodBefore (d : Nat → Nat) (sys : Nat) : Nat := prodN d (sys - 1)
 def prodAfter (d : Nat → Nat) (n sys : Nat) : Nat := prodN (fun k => d (sys + k)) (n - sys)
 
-/-- `partial_channel(rho, phi_map, sys, dim)` for a list `phi_map`; `rd`, `cd` are the two rows of the
-    normalised `dim` array (length `n`).
+/-- the list that `partial_channel(rho, phi_map, sys, dim)` hands to `apply_channel` when `phi_map` is a
+    list; `rd`, `cd` are the two rows of the normalised `dim` array (length `n`), `sys` is 1-indexed.
 ```
 if isinstance(phi_map[0], np.ndarray): phi_list = phi_map
 elif s2 == 1 or s1 == 1 and s2 > 2:    phi_list = list(itertools.chain(*phi_map))
@@ -326,13 +326,13 @@ def embedArg [Mul α] [Zero α] [One α] (phi : KrausArg α) (sys n : Nat) (rd c
       let p2 ← ll.mapM (fun m => (m[1]?).map (embed c1 c2))
       some (.nested ((p1.zip p2).map (fun ab => [ab.1, ab.2])))
 
+/-- `partial_channel(rho, phi_map, sys, dim)` for a list `phi_map` -/
 def partialChannelKraus [Add α] [Mul α] [Zero α] [One α] [HasConj α] (rho : Mat α) (phi : KrausArg α)
     (sys n : Nat) (rd cd : Nat → Nat) : Option (Mat α) :=
   (embedArg phi sys n rd cd).bind (applyKraus rho)
 
-/-- `partial_channel(rho, phi_map, sys, dim)` for an `ndarray` `phi_map` (Choi matrix):
-    the 6-factor array `dim`, `kron(kron(ψ_r1 ψ_c1ᴴ, phi_map), ψ_r2 ψ_c2ᴴ)` permuted by `[0,2,4,1,3,5]`,
-    then `apply_channel` with the resulting Choi matrix. -/
+/-- the Choi matrix of `id ⊗ Φ ⊗ id` that the Choi branch of `partial_channel` builds from `phi_map`:
+    the 6-factor array `dim`, `kron(kron(ψ_r1 ψ_c1ᴴ, phi_map), ψ_r2 ψ_c2ᴴ)` permuted by `[0,2,4,1,3,5]` -/
 def embedChoi [Add α] [Mul α] [Zero α] [One α] [HasConj α] (J : Mat α)
     (sys n : Nat) (rd cd : Nat → Nat) : Mat α :=
   let r1 := prodBefore rd sys
@@ -344,6 +344,7 @@ def embedChoi [Add α] [Mul α] [Zero α] [One α] [HasConj α] (J : Mat α)
   let big := kron (kron ((maxEnt r1).mul (maxEnt c1).ct) J) ((maxEnt r2).mul (maxEnt c2).ct)
   big.permute 6 (fnOfList [0, 2, 4, 1, 3, 5]) dr dc
 
+/-- `partial_channel(rho, phi_map, sys, dim)` for an `ndarray` `phi_map`: `apply_channel` with the embedded Choi matrix -/
 def partialChannelChoi [Add α] [Mul α] [Zero α] [One α] [HasConj α] (rho J : Mat α)
     (sys n : Nat) (rd cd : Nat → Nat) : Mat α :=
   applyChoi rho (embedChoi J sys n rd cd)
